@@ -8,7 +8,7 @@
 (* complete negation.  Product: exhaustive automaton x automaton of the    *)
 (* whole pattern x the obligation monitor of GlobQuery.                    *)
 (***************************************************************************)
-EXTENDS KnownFindings, GlobQuery, Json, IOUtils
+EXTENDS KnownFindings, VarianceImpl, GlobQuery, Json, IOUtils
 
 Obs == ndJsonDeserialize(IOEnv.OBS)
 
@@ -37,7 +37,9 @@ View == <<case, st, qe, qa, can, ob>>
 Report(r) == PrintT(ToJson(r))
 TreeOf(o) == LET p == Parse(o.e) IN IF p.st = "ok" THEN Strip(p.toks) ELSE <<>>
 Sig == LET T == TreeOf(Obs[case]) IN
-       [endsep |-> LastLeafIsSep(T), treebranch |-> TreeThenBranch(T), inrep |-> TreeInRep(T)]
+       [endsep |-> LastLeafIsSep(T), treebranch |-> TreeThenBranch(T), inrep |-> TreeInRep(T),
+        treelastalt |-> TreeLastInAltBranch(T), branchinrep |-> BranchInUnboundedRep(T),
+        implsame |-> (T # <<>> /\ ExhImpl(T) = Obs[case].q.exh)]
 Dis(what) == Report([t |-> "DISAGREE", prop |-> "C03", what |-> what, id |-> Obs[case].id, path |-> path, sig |-> Sig])
 
 NegationSound ==
